@@ -24,7 +24,7 @@ def units(rng, tier):
             if rng.random() < 0.3:
                 v.insert(rng.randrange(len(v) + 1), big)        # multiplicity
             a = rng.choice(["ff", "ffd", "bf", "bfd", "bc"])
-            u = pack_unit(a, C, v, rng, fmt=rng.choice(gen.FORMATS), out=rng.choice(OUTS), cmp="eq", family="oversize")
+            u = pack_unit(a, C, v, rng, fmt=rng.choice(gen.FORMATS + ["list_np", "dict_np"]), out=rng.choice(OUTS), cmp="eq", family="oversize")
             us.append(u)
     # an oversize item next to NEGATIVE-valued items (nonsense for packing, but the refusal must not depend on the other items: the
     # total may well be below the bin size)
